@@ -508,6 +508,10 @@ _ODD_LINKS = [b'data:a/b/c,x/', b'data:,/', b'data:/,/', b'data:;base64,/', b'da
 # components that each fit (the per-component limit of --max-filename-length does not bound the whole path)
 _DEEP_LINKS = [b'/deep/' + b'd/' * 1200 + b'x.html', b'/long/' + (b'c' * 150 + b'/') * 40 + b'y.html']
 HOSTILE_HTML += [b'<html>' + b''.join(b'<a href="' + l + b'">deep</a>' for l in _DEEP_LINKS) + b'</html>']
+# elements whose attributes refer to each other: <object codebase=... data=... archive=...>, <applet code=... codebase=...>
+HOSTILE_HTML += [b'<html><object codebase="data" data="x"></object><object codebase="http://[bad" data="y" archive="a b c" classid="z"></object>'
+                 b'<applet codebase="archive" code="c.class" archive="q"></applet><object data="" codebase=""></object>'
+                 b'<object codebase="/hostile/" data="obj.bin"></object><a href="x." rel="NoFollow">dot</a><a href="trailing ">sp</a></html>']
 HOSTILE_JS += [b'var links = [' + b', '.join(b'"' + l + b'"' for l in _ODD_LINKS) + b'];']
 HOSTILE_HTML += [b'<html>' + b''.join(b'<a href="' + l + b'">x</a><img src="' + l + b'" srcset="' + l + b' 2x"><div data-href="' + l + b'"></div>' for l in _ODD_LINKS) + b'</html>']
 HOSTILE_CSS += [b''.join(b'@import url("' + l + b'"); a { background: url(' + l + b') }\n' for l in _ODD_LINKS)]
